@@ -10,7 +10,7 @@ from exact import cycles_of, oracle_c01
 THEOREMS = ["Parmcb.runIn_basis", "Parmcb.run_weight", "Parmcb.runFrom_weight", "Parmcb.run_weight_rat", "Parmcb.checkRunPotRat_sound"] + \
     ["Parmcb.C09." + t for t in ["c09_rnd_exact", "c09_rnd_err", "c09_rnd_mono", "c09_rnd_idem", "c09_fadd_inflationary", "c09_fsum_bounds", "c09_fsum_rel",
                                  "c09_select_partial", "c09_valid_partial", "c09_near_min_partial", "c09_within_1e9_partial",
-                                 "c09_float_spt_lower", "c09_float_spt_approx", "c09_validated_run_partial", "c09_float_dijkstra_cert", "c09_float_dijkstra_approx", "c09_float_lex_dijkstra_cert", "c09_ret_partial"]]
+                                 "c09_float_spt_lower", "c09_float_spt_approx", "c09_validated_run_partial", "c09_float_dijkstra_cert", "c09_float_dijkstra_approx", "c09_float_lex_dijkstra_cert", "c09_ret_partial", "c09_signed_search_weight_partial"]]
 P_FACTOR, Q_FACTOR = 2 ** 32 + 1, 2 ** 32 - 1
 
 def dyadic(xs):
